@@ -6,6 +6,8 @@ require (
 	github.com/google/gce-tcb-verifier v0.2.3-0.20240907002716-116e9ad95165
 	github.com/google/gce-tcb-verifier/gcetcbendorsement v0.0.0
 	github.com/google/go-sev-guest v0.13.0
+	github.com/google/go-tdx-guest v0.3.2-0.20240902060211-1f7f7b9b42b9
+	github.com/google/go-tpm-tools v0.4.4
 	google.golang.org/protobuf v1.34.2
 )
 
@@ -14,8 +16,6 @@ require (
 	cloud.google.com/go/kms v1.15.7 // indirect
 	github.com/cyphar/filepath-securejoin v0.2.5 // indirect
 	github.com/google/go-configfs-tsm v0.3.2 // indirect
-	github.com/google/go-tdx-guest v0.3.2-0.20240902060211-1f7f7b9b42b9 // indirect
-	github.com/google/go-tpm-tools v0.4.4 // indirect
 	github.com/google/logger v1.1.1 // indirect
 	github.com/google/uuid v1.6.0 // indirect
 	github.com/pkg/errors v0.9.1 // indirect
